@@ -1017,8 +1017,10 @@ func (s *Service) ProcessRequest(ctx *core.Context, m map[string]interface{}, ou
 				_, err := s.System.RemFact(ctx, location, found.Id)
 				if err != nil {
 					core.Log(core.ERROR, ctx, "service.ProcessRequest", "app_tag", "/api/loc/facts/search", "error", err, "RemFact", found.Id)
+					// The caller asked for these facts to be
+					// removed: say that it didn't happen.
+					return nil, err
 				}
-				// ToDo: Something with error.
 			}
 		}
 
